@@ -6,6 +6,8 @@ from fractions import Fraction as Fr
 import numpy as np
 
 from .. import engine, refmodel as rm
+from .. import histories
+from ..histories import t_callhist      # worker task of the history harness (mc/histories.py)
 
 PID = 'C15'
 MOD = 'mc.props.c15'
@@ -466,6 +468,8 @@ def t_bfs(arg, acc):
 DISPATCH = {'crop': chk_crop, 'integrate': chk_integrate, 'bin': chk_bin, 'binerr': chk_bin_errors, 'hist': lambda c, a, s: chk_hist(c, a, s)}
 
 
+DISPATCH['histop'] = histories.chk_case
+
 def t_static(arg, acc):
     seed = arg['seed']
     if arg['what'] == 'integrate':
@@ -497,6 +501,7 @@ def run(tier, seed, acc, procs=None):
         tasks.append(('t_bfs', {'seed': seed, 'init': init, 'depth': depth}))
     acc.states += 1
     acc.transitions += len(tasks)
+    tasks += histories.tasks_for(PID, seed)        # pairwise call histories over the operations this property is anchored in
     engine.run_parallel(MOD, tasks, acc, procs)
     return {
         'rule': 'integrate: 6 grids (uniform / non-uniform, 3-7 samples) x unit-vector and generic values x all sample-point pairs '
